@@ -21,7 +21,7 @@ LEVEL = 'exploration'
 TECHNIQUE = ('Hypothesis-generated recorded runs (shared with C17); recorded case as oracle for the state of a fresh/perturbed problem '
              'after load_case; re-run of the model as metamorphic check; NumPy closed form of the model as absolute anchor')
 RULE = ("case = C17 case (model spec x driver x recorder placement/options x run sequence) + 3 drawn positions in the list of recorded "
-        "cases + load mode (fresh problem after setup() | after final_setup() | after final_setup, other independent values and "
+        "cases (one recorded after a complete solve, one in the middle of a run, one anywhere) + load mode (fresh problem after setup() | after final_setup() | after final_setup, other independent values and "
         "run_model). Every picked case is loaded into its own new Problem. Non-trivial = the loaded case holds an input connected "
         "with a unit conversion or a variable of the coupled pair, and the target problem was perturbed or the case is not the last "
         "one. Distinct = distinct canonical JSON.")
@@ -35,12 +35,13 @@ ASSUMPTIONS = [
     "its source by the solver tolerance)",
     "re-run clause: only cases recorded right after a complete model solve (driver / root-system / problem cases), that contain "
     "every independent variable whose value differs from the fresh default; tolerance 1e-9*(1+|v|) (solver tolerances are 1e-12); "
-    "cases of a ScipyOptimizeDriver run are excluded from this clause (relevance pruning leaves irrelevant components stale by design)",
+    "cases of a ScipyOptimizeDriver run are excluded from this clause (relevance pruning leaves irrelevant components stale by design), "
+    "and so are models whose coupled pair holds magnitudes above 1e4 (solver converged only relative to its first residual)",
     "the recorder file is written with PRAGMA synchronous=OFF (durability is C18's subject)",
 ]
 BOUND = {'quick': '4 units x 110 runs x up to 3 loaded cases', 'thorough': '16 units x 900 runs x 3'}
-MIN_CLASS_FRACTION = {'judged': 0.9, 'kind:driver': 0.1, 'kind:problem': 0.1, 'kind:system': 0.15, 'kind:solver': 0.08, 'mode:perturbed': 0.2,
-                      'mode:setup-only': 0.2, 'rerun-checked': 0.15, 'has-unit-converted-input': 0.2}
+MIN_CLASS_FRACTION = {'judged': 0.9, 'kind:driver': 0.08, 'kind:problem': 0.1, 'kind:system': 0.15, 'kind:solver': 0.08, 'mode:perturbed': 0.2,
+                      'mode:setup-only': 0.2, 'rerun-checked': 0.12, 'has-unit-converted-input': 0.2}
 UNIT_TIMEOUT = {'quick': 1500, 'thorough': 4 * 3600}
 FNAME = './c19_cases.sql'
 
@@ -74,7 +75,9 @@ def check(case):
     if os.path.exists(FNAME):
         os.remove(FNAME)
     try:
-        return _check(case, spec, res, om)
+        out = _check(case, spec, res, om)
+        out.classes = list(dict.fromkeys(out.classes))
+        return out
     finally:
         for fn in (FNAME, FNAME + '-journal'):
             if os.path.exists(fn):
@@ -121,9 +124,20 @@ def _check(case, spec, res, om):
     for nm, absn, size in indep:
         defaults[absn] = np.array(p0.get_val(absn), dtype=float).copy()
 
+    def is_full(e):
+        if e['source'] == 'problem':
+            prev = [o['op'] for o in spec['ops'][:e['op']] if o['op'] != 'record']
+            return bool(prev) and prev[-1].startswith('run')
+        return e['source'] in ('driver', 'root')
+
+    # first pick among the cases recorded after a complete solve, second among the others (component / solver / sub-group
+    # cases taken in the middle of a run), third anywhere
+    pools = [[i for i, e in enumerate(log) if is_full(e)], [i for i, e in enumerate(log) if not is_full(e)], list(range(len(log)))]
     done = set()
-    for pick in case['picks']:
-        idx = pick % len(log)
+    for pick, pool in zip(case['picks'], pools):
+        if not pool:
+            continue
+        idx = pool[pick % len(pool)]
         if idx in done:
             continue
         done.add(idx)
@@ -158,10 +172,7 @@ def _check(case, spec, res, om):
                 before[a] = np.array(p2.get_val(a, from_src=False) if m['io'] == 'input' else p2.get_val(a)).copy()
 
         # consistent state when recorded?
-        full = e['source'] in ('driver', 'root')
-        if e['source'] == 'problem':
-            prev = [o['op'] for o in spec['ops'][:e['op']] if o['op'] != 'record']
-            full = bool(prev) and prev[-1].startswith('run')
+        full = is_full(e)
         in_opt = False
         if spec['driver']['t'] == 'slsqp':
             last_run = [o['op'] for o in spec['ops'][:e['op'] + 1] if o['op'].startswith('run')]
@@ -224,6 +235,11 @@ def _check(case, spec, res, om):
                 if absn not in rec_out and (mode == 'perturbed' or not np.array_equal(np.ravel(snap), np.ravel(defaults[absn]))):
                     ok = False
             bad_names = any(known_relative_names(spec, a) for a in rec_out)
+            if ok and spec['cycle'] and max(float(np.max(np.abs(rinfo['out_off'].get(e['outputs'], a)))) for a in ('cyc.d1.cy1', 'cyc.d2.cy2')) > 1e4:
+                # the coupled pair's solver stops on a residual RELATIVE to its first one: with huge magnitudes the recorded state
+                # is converged only relatively and no absolute tolerance for the re-run follows from the case
+                res.classes.append('rerun-skipped-huge-values')
+                ok = False
             if ok:
                 try:
                     p2.run_model()
@@ -253,8 +269,20 @@ def strategy(tier):
 
     @st.composite
     def cases(draw):
-        spec = draw(M.full_strategy(max_recorders=3))
+        need = draw(st.sampled_from([('driver', ''), ('problem', ''), ('system', ''), ('solver', ''), None]))
+        spec = draw(M.full_strategy(max_recorders=3, need=[need] if need else None))
         out = dict(spec)
+        # C17 stresses the filters; here most recorders keep everything so that the loaded cases are rich
+        recs = []
+        for r in spec['recorders']:
+            r = dict(r, opts=dict(r['opts']))
+            if draw(st.integers(0, 3)) > 0:
+                r['opts'].pop('excludes', None)
+                r['opts']['includes'] = ['*']
+                for k in ('record_inputs', 'record_outputs'):
+                    r['opts'][k] = True
+            recs.append(r)
+        out['recorders'] = recs
         out['picks'] = [draw(st.integers(0, 200)) for _ in range(3)]
         out['mode'] = ['setup-only', 'final-setup', 'perturbed', 'perturbed'][draw(st.integers(0, 3))]
         out['pert'] = [draw(st.sampled_from([0.375, -1.625, 2.25, 0.875, -0.5])) for _ in range(4)]
